@@ -858,8 +858,19 @@ bool hx_next_case(const hx_args *a, uint64_t *idx)
 	return true;
 }
 
+static double case_t0; static uint64_t case_prev = UINT64_MAX; static double slow_s; static uint64_t slow_idx;
+static double wall_now(void) { struct timespec ts; clock_gettime(CLOCK_MONOTONIC, &ts); return (double)ts.tv_sec + ts.tv_nsec * 1e-9; }
+static void case_time_close(void)
+{
+	if (case_prev == UINT64_MAX) return;
+	double d = wall_now() - case_t0;
+	if (d > slow_s) { slow_s = d; slow_idx = case_prev; }
+}
+
 void hx_case_begin(uint64_t idx)
 {
+	case_time_close();
+	case_prev = idx; case_t0 = wall_now();
 	if (progress_fd >= 0) {
 		char b[32]; int n = snprintf(b, sizeof(b), "%20" PRIu64 "\n", idx);
 		if (pwrite(progress_fd, b, (size_t)n, 0) < 0) {}
@@ -942,6 +953,9 @@ void visits_reset(void)
 
 void hx_finish(void)
 {
+	case_time_close();
+	hx_max("slowest_case_ms", (uint64_t)(slow_s * 1000));
+	if (slow_s > 5.0) hx_note("slowest case %" PRIu64 " took %.1f s", slow_idx, slow_s);
 	fprintf(stdout, "{\"t\":\"stats\",\"evaluations\":%" PRIu64 ",\"distinct_nontrivial\":%zu,\"violations\":%" PRIu64 ",\"counters\":{", n_eval, dnt, n_viol);
 	for (size_t i = 0; i < ncounters; ++i) {
 		if (i) fputc(',', stdout);
